@@ -6,6 +6,7 @@ import LdkModel.Generated.EnumCodecs
 import LdkModel.Generated.SerPrims
 import LdkModel.Generated.Positional
 import LdkModel.Proofs.SerPrims
+import LdkModel.Proofs.ChanForget
 /-!
   C12 — persisted objects survive serialization unchanged: the FRAMING theorems.
 
@@ -655,5 +656,157 @@ example : posNameMismatches [("val", "counterparty_next_commitment_transaction_n
        (1, "next_transaction_number", "counterparty_next_commitment_transaction_number")] := by decide
 example : mergeSteps [("val", "a", "", 1), ("val", "txid", "", 1), ("val", "index", "", 1), ("val", "b", "", 1)] [(1, 2)]
     = [("val", "a", "", 1), ("blk", "txid", "", 2), ("val", "b", "", 1)] := by decide
+
+/-! ## the writer's "forget the peer's uncommitted updates" table (FundedChannel::write / ::read / remove_uncommitted_htlcs_and_mark_paused)
+
+  `Generated/ChanForget.lean` (tools/gen_chan_forget.py, re-extracted on every check) holds, statement by statement, what
+  `impl Writeable for FundedChannel` does with the updates the PEER announced but no commitment_signed covers yet: the
+  `dropped_inbound_htlcs` counter, the `len - dropped` count, the `continue` of the inbound loop and the state bytes, the state bytes
+  of outbound HTLCs (RemoteRemoved written as Committed), the three-way pending_update_fee statement, the rewound
+  `next_counterparty_htlc_id`; the reader's byte -> variant matches and its role-derived fee state; and the `retain` closure, the
+  counter rewind, the fee reset and the outbound reset of `remove_uncommitted_htlcs_and_mark_paused`.  `Model/ChanForget.lean`
+  runs those tables over a channel (`write`, `read`, `forget`, `recv`).  Seeded C12-r5 (`next_counterparty_htlc_id` written without
+  the rewind) and C01-r5 (a fundee's RemoteAnnounced fee update written) each change one generated definition and break
+  `written_state_is_forgotten_state`, `write_as_if_forgotten` and `retransmission_restores`. -/
+section ChanForget
+open Ldk.ChanForget Ldk.ChanForget.Gen
+
+/-- WRITTEN STATE = IN-MEMORY STATE MINUS EXACTLY THE PEER'S UNCOMMITTED UPDATES: for every channel state (any HTLC lists, any
+    ids, any fee update consistent with the channel's role) reading back what `FundedChannel::write` writes succeeds and yields
+    the state `remove_uncommitted_htlcs_and_mark_paused` produces in memory.  (`FeeWf`: only the funder has an `Outbound` fee
+    update and only the fundee a received one — `send_update_fee` panics on a fundee, `update_fee` closes on a funder; preserved by
+    every transition of the model, `feeWf_preserved`, and asserted on every dump of the real channels by the harness.) -/
+theorem written_state_is_forgotten_state (c : Chan) (h : FeeWf c) : readChan c.outbound (writeChan c) = some (forget c) := by
+  obtain ⟨f1, f2, f3⟩ := flags
+  have hc : (writeChan c).inCount = (writeChan c).inb.length := by
+    simp only [writeChan, f1, if_true, filterMap_len]; have := len_split c.inb; rw [dropped_eq]; omega
+  have ho : (writeChan c).outCount = (writeChan c).outb.length := by simp [writeChan]
+  unfold readChan
+  rw [if_neg (by simp [hc, ho])]
+  simp only [writeChan, mapOpt_in, mapOpt_out, fee_rt c.outbound c.fee h, f2, if_true]
+  simp only [forget, f3, if_true, counted_eq]
+example : readChan false (writeChan ⟨false, [(4, .committed), (5, .remoteAnnounced), (6, .remoteAnnounced)], [(0, .remoteRemoved)], some (500, .remoteAnnounced), none, [9], 1, 7⟩)
+    = some ⟨false, [(4, .committed)], [(0, .committed)], none, none, [9], 1, 5⟩ := by decide
+
+/-- "we write out as if remove_uncommitted_htlcs_and_mark_paused had just been called": the bytes do not depend on whether the
+    peer was disconnected first -/
+theorem write_as_if_forgotten (c : Chan) (h : FeeWf c) : writeChan (forget c) = writeChan c := by
+  obtain ⟨f1, f2, f3⟩ := flags
+  simp only [writeChan, forget, f1, f2, f3, if_true, dropped_kept, filterMap_kept, List.map_map, List.length_map, wFee_forget c.outbound c.fee h,
+    counted_eq, Nat.sub_zero]
+  have h1 := len_split c.inb
+  have h2 := dropped_eq c.inb
+  congr 1
+  · omega
+  · apply List.map_congr_left; intro a _; simp [out_tag_reset]
+
+/-- a second disconnection forgets nothing more -/
+theorem forget_idempotent (c : Chan) : forget (forget c) = forget c := by
+  obtain ⟨_, _, f3⟩ := flags
+  simp only [forget, f3, if_true, filter_keep_idem, forgetFee_idem, List.map_map, counted_eq, dropped_kept, Nat.sub_zero]
+  congr 1
+  apply List.map_congr_left; intro a _; simp [out_reset_idem]
+
+/-- … EXACTLY the peer's uncommitted updates: the inbound HTLCs dropped are the RemoteAnnounced ones and the id counter is rewound by
+    their number; the holding cell (HTLC updates and fee update — OUR updates, not yet sent) and our own id counter are kept -/
+theorem forgets_exactly_peer_uncommitted (c : Chan) :
+    (forget c).inb = c.inb.filter (fun h => h.2 ≠ .remoteAnnounced) ∧
+    (forget c).nextCp = c.nextCp - (c.inb.filter (fun h => h.2 = .remoteAnnounced)).length ∧
+    (forget c).hold = c.hold ∧ (forget c).holdFee = c.holdFee ∧ (forget c).nextHolder = c.nextHolder ∧ (forget c).outbound = c.outbound ∧
+    (forget c).outb = c.outb.map (fun h => (h.1, if h.2 = .remoteRemoved then .committed else h.2)) ∧
+    (forget c).fee = (match c.fee with | some (_, .remoteAnnounced) => none | f => f) := by
+  obtain ⟨_, _, f3⟩ := flags
+  refine ⟨?_, ?_, rfl, rfl, rfl, rfl, ?_, ?_⟩
+  · simp only [forget]; apply List.filter_congr; intro a _; cases a.2 <;> decide
+  · simp only [forget, f3, if_true]; congr 2; apply List.filter_congr; intro a _; cases a.2 <;> decide
+  · simp only [forget]; apply List.map_congr_left; intro a _; cases a.2 <;> rfl
+  · simp only [forget]; cases hf : c.fee with
+    | none => rfl
+    | some p => obtain ⟨r, s⟩ := p; cases s <;> rfl
+
+/-- READING IT BACK AND RE-APPLYING THE RETRANSMITTED UPDATES RESTORES THE IN-MEMORY STATE: the peer sends its uncommitted
+    update_add_htlcs (and update_fee) again after channel_reestablish; the re-read channel accepts every one of them
+    (`htlc_id == next_counterparty_htlc_id` each time — the written counter was rewound by exactly the number of HTLCs not
+    written) and ends in the state the writer saw, up to outbound RemoteRemoved -> Committed (the peer's update_fulfill / fail is
+    resent too; not modelled) -/
+theorem retransmission_restores (c : Chan) (h : FeeWf c) (ha : AnnWf c) :
+    (readChan c.outbound (writeChan c)).bind (fun c' => recvAll c' (retransmit c)) =
+      some { c with outb := c.outb.map (fun h => (h.1, mOutReset h.2)) } := by
+  rw [written_state_is_forgotten_state c h]
+  obtain ⟨pre, k, hk, hpre, hin⟩ := ha
+  obtain ⟨_, _, f3⟩ := flags
+  obtain ⟨ob, inb, outb, fee, holdFee, hold, nh, ncp⟩ := c
+  simp only at hk hin
+  subst hin
+  have hkeep : pre.filter (fun x => mKeep x.2) = pre := by
+    apply List.filter_eq_self.mpr; intro x hx; exact (keep_iff x.2).mpr (hpre x hx)
+  have hnone : ∀ l : List Nat, (l.map (fun i => (i, InSt.remoteAnnounced))).filter (fun x => mKeep x.2) = [] := by
+    intro l; apply List.filter_eq_nil_iff.mpr; intro x hx; obtain ⟨i, _, rfl⟩ := List.mem_map.mp hx; simp [mKeep]
+  have hra_pre : pre.filter (fun x => x.2 = .remoteAnnounced) = [] := by
+    apply List.filter_eq_nil_iff.mpr; intro x hx; simpa using hpre x hx
+  have hra_ann : ∀ l : List Nat, (l.map (fun i => (i, InSt.remoteAnnounced))).filter (fun x => x.2 = .remoteAnnounced) = l.map (fun i => (i, InSt.remoteAnnounced)) := by
+    intro l; apply List.filter_eq_self.mpr; intro x hx; obtain ⟨i, _, rfl⟩ := List.mem_map.mp hx; simp
+  have hcnt : ((pre ++ (List.range' (ncp - k) k).map (fun i => (i, InSt.remoteAnnounced))).filter (fun x => mCounted x.2)).length = k := by
+    rw [counted_eq, dropped_eq, List.filter_append]
+    have : pre.filter (fun x => !mKeep x.2) = [] := by
+      apply List.filter_eq_nil_iff.mpr; intro x hx; simp [(keep_iff x.2).mpr (hpre x hx)]
+    rw [this, List.nil_append, List.filter_eq_self.mpr, List.length_map, List.length_range']
+    intro x hx; obtain ⟨i, _, rfl⟩ := List.mem_map.mp hx; simp [mKeep]
+  have hforget : forget ⟨ob, pre ++ (List.range' (ncp - k) k).map (fun i => (i, InSt.remoteAnnounced)), outb, fee, holdFee, hold, nh, ncp⟩
+      = ⟨ob, pre, outb.map (fun h => (h.1, mOutReset h.2)), forgetFee fee, holdFee, hold, nh, ncp - k⟩ := by
+    simp only [forget, f3, if_true, List.filter_append, hkeep, hnone, List.append_nil]
+    rw [← List.filter_append, hcnt]
+  have hrt : retransmit ⟨ob, pre ++ (List.range' (ncp - k) k).map (fun i => (i, InSt.remoteAnnounced)), outb, fee, holdFee, hold, nh, ncp⟩
+      = (List.range' (ncp - k) k).map Msg.add ++ (match fee with | some (r, .remoteAnnounced) => [Msg.fee r] | _ => []) := by
+    simp only [retransmit, List.filter_append, hra_pre, hra_ann, List.nil_append, List.map_map]; rfl
+  have hadds := recvAll_adds k ⟨ob, pre, outb.map (fun h => (h.1, mOutReset h.2)), forgetFee fee, holdFee, hold, nh, ncp - k⟩
+    (match fee with | some (r, .remoteAnnounced) => [Msg.fee r] | _ => [])
+  simp only at hadds
+  rw [hforget, hrt, Option.bind_some, hadds, show ncp - k + k = ncp by omega]
+  cases fee with
+  | none => rfl
+  | some p =>
+    obtain ⟨r, s⟩ := p
+    have hw : (ob = true ↔ s = .outbound) := by simpa [FeeWf] using h
+    cases s with
+    | remoteAnnounced =>
+      have hob : ob = false := by cases ob <;> simp_all
+      subst hob; rfl
+    | awaitingRemoteRevokeToAnnounce => rfl
+    | outbound => rfl
+example : (readChan false (writeChan ⟨false, [(4, .committed), (5, .remoteAnnounced), (6, .remoteAnnounced)], [], some (500, .remoteAnnounced), none, [], 1, 7⟩)).bind
+      (fun c' => recvAll c' [.add 5, .add 6, .fee 500])
+    = some ⟨false, [(4, .committed), (5, .remoteAnnounced), (6, .remoteAnnounced)], [], some (500, .remoteAnnounced), none, [], 1, 7⟩ := by decide
+-- the C12-r5 shape: a counter that is NOT rewound makes the re-read channel refuse the retransmitted add ("Remote skipped HTLC ID")
+example : recv ⟨false, [(4, .committed)], [], none, none, [], 1, 6⟩ (.add 5) = none := by decide
+
+/-- the two well-formedness conditions are invariants of the modelled transitions: receiving an update, a disconnection, a
+    write + read -/
+theorem feeWf_preserved (c c' : Chan) (m : Msg) (h : FeeWf c) (hr : recv c m = some c') : FeeWf c' ∧ FeeWf (forget c) := by
+  constructor
+  · cases m with
+    | add id => simp only [recv] at hr; split at hr <;> simp_all [FeeWf]; subst hr; simpa [FeeWf] using h
+    | fee r => simp only [recv] at hr; split at hr <;> simp_all [FeeWf]; subst hr; simp_all
+  · unfold FeeWf at h ⊢; simp only [forget]
+    cases hf : c.fee with
+    | none => simp [forgetFee]
+    | some p => obtain ⟨r, s⟩ := p; rw [hf] at h; cases s <;> simp_all [forgetFee, mFeeDrop]
+
+theorem annWf_preserved (c c' : Chan) (id : Nat) (h : AnnWf c) (hr : recv c (.add id) = some c') : AnnWf c' ∧ AnnWf (forget c) := by
+  obtain ⟨pre, k, hk, hpre, hin⟩ := h
+  obtain ⟨_, _, f3⟩ := flags
+  constructor
+  · simp only [recv] at hr; split at hr
+    · simp at hr
+    · simp only [Option.some.injEq] at hr; subst hr
+      refine ⟨pre, k + 1, by simp; omega, hpre, ?_⟩
+      simp only [hin, List.append_assoc]
+      rw [show c.nextCp + 1 - (k + 1) = c.nextCp - k by omega, List.range'_concat, List.map_append]
+      simp; omega
+  · refine ⟨(forget c).inb, 0, Nat.zero_le _, ?_, by simp⟩
+    intro x hx; simp only [forget] at hx; exact (keep_iff x.2).mp (List.mem_filter.mp hx).2
+example : FeeWf ⟨false, [], [], some (500, .remoteAnnounced), none, [], 0, 0⟩ ∧ ¬ FeeWf ⟨true, [], [], some (500, .remoteAnnounced), none, [], 0, 0⟩ := by decide
+
+end ChanForget
 
 end Ldk.C12
